@@ -70,11 +70,33 @@ def check(tier='quick', seed=0):
     got, err = _evaluate({'A': '1', 'B': '$A/2', 'C': '${B}-$A'})
     if got is None or got != {'A': '1', 'B': '1/2', 'C': '1/2-1'}:
         bad.append(dict(environment={'A': '1', 'B': '$A/2', 'C': '${B}-$A'}, job_sees=got, bash_error=err))
+    # ... whatever kind of value the earlier one is (command substitution), interleaved with plain ones
+    for env, want in (
+        ({'STAMP': '$(printf 2020)', 'LABEL': 'run-${STAMP}', 'Z': 'z'},
+         {'STAMP': '2020', 'LABEL': 'run-2020', 'Z': 'z'}),
+        ({'P': 'p', 'Q': '`printf q`$P', 'R': '${Q}r', 'S': '$(printf %s "$R")s'},
+         {'P': 'p', 'Q': 'qp', 'R': 'qpr', 'S': 'qprs'}),
+    ):
+        n_eval += 1
+        got, err = _evaluate(env)
+        if got is None or got != want:
+            bad.append(dict(environment=env, job_sees=got, expected=want, bash_error=err,
+                            clause='configuration order'))
+    # a leading "~" that cannot be a login name (blank before any "/"): nothing for the shell to expand
+    tilde = ['~5 minutes', '~one ~two', '~10% of total', '~ x']
+    n_eval += len(tilde)
+    env = {f'T{j}': v for j, v in enumerate(tilde)}
+    got, err = _evaluate(env)
+    if got is None or got != env:
+        bad.append(dict(environment=env, job_sees=got, bash_error=err,
+                        clause='literal text starting with "~" followed by a blank'))
     name = ('bounded::a value without shell-expansion characters is exported to the job unchanged; later values '
             'can use earlier variables')
     rule = (f'every string of <= {3 if tier == "quick" else 4} characters over {len(ALPHABET)} characters (letters, '
             'blanks, newline, quote, glob, redirection, grouping and history characters; no $ ` \\ ", no leading '
-            '~), written by the real JobFileWriter and evaluated by /bin/bash; distinct = distinct values')
+            '~), written by the real JobFileWriter and evaluated by /bin/bash; plus 3 environments in which later '
+            'values use earlier ones ($A, ${B}, $(...) and `...` substitutions) and 4 literal values starting with '
+            '"~" followed by a blank; distinct = distinct values')
     base = dict(name=name, kind='bounded', evaluations=n_eval, distinct=len(distinct), rule=rule,
                 samples=samples, exhaustive=True)
     if bad:
